@@ -7,6 +7,7 @@ toolchain go1.23.5
 require (
 	github.com/Trendyol/go-dcp v0.0.0
 	github.com/asaskevich/EventBus v0.0.0-20200907212545-49d423059eef
+	github.com/bytedance/sonic v1.12.8
 	github.com/couchbase/gocbcore/v10 v10.5.2
 	github.com/prometheus/client_golang v1.20.5
 	github.com/prometheus/client_model v0.6.1
@@ -17,7 +18,6 @@ require (
 	github.com/andybalholm/brotli v1.1.1 // indirect
 	github.com/ansrivas/fiberprometheus/v2 v2.7.0 // indirect
 	github.com/beorn7/perks v1.0.1 // indirect
-	github.com/bytedance/sonic v1.12.8 // indirect
 	github.com/bytedance/sonic/loader v0.2.2 // indirect
 	github.com/cespare/xxhash/v2 v2.3.0 // indirect
 	github.com/cloudwego/base64x v0.1.5 // indirect
